@@ -6,6 +6,7 @@ import (
 	"crypto/x509"
 	"errors"
 	"fmt"
+	"io"
 	"sync"
 	"time"
 
@@ -125,9 +126,25 @@ type Env struct {
 	ExtraClient []dtls.ClientOption
 	ExtraServer []dtls.ServerOption
 	Log         *LogSink
+	// key log lines by the role that wrote them ("C", "S"): what a decoder holding only that side's log sees
+	keyLogBy map[string]*LockedBuffer
 	// AcceptableCAs seen by the client's GetClientCertificate callback (EP.CertCallback), per call
 	criMu         sync.Mutex
 	AcceptableCAs [][][]byte
+}
+
+// KeyLogOf returns the key log written by one role only.
+func (e *Env) KeyLogOf(role string) *LockedBuffer {
+	e.criMu.Lock()
+	defer e.criMu.Unlock()
+	if e.keyLogBy == nil {
+		e.keyLogBy = map[string]*LockedBuffer{}
+	}
+	if e.keyLogBy[role] == nil {
+		e.keyLogBy[role] = &LockedBuffer{}
+	}
+
+	return e.keyLogBy[role]
 }
 
 func (e *Env) noteCRI(cas [][]byte) {
@@ -375,7 +392,7 @@ func (ep *EP) shared(env *Env, role string) ([]dtls.Option, error) {
 		o = append(o, dtls.WithServerName(ep.ServerName))
 	}
 	if ep.KeyLog || true {
-		o = append(o, dtls.WithKeyLogWriter(env.KeyLog))
+		o = append(o, dtls.WithKeyLogWriter(io.MultiWriter(env.KeyLog, env.KeyLogOf(role))))
 	}
 
 	return o, nil
